@@ -139,6 +139,37 @@ def run_shard(spec, tier, seed):
                 V(f"conversion-twin-differs {cname} backend={bname.split(':')[0]}", variant=bname)
             res.cell(cname, bname.split(":")[0], sn)
 
+    # ---------------------------------------------------------------- keyword synonyms of the embeddings: a coordinate given as
+    # pz / E, e, energy / M, m, mass is the coordinate given as z / t / tau, for every value including exactly zero
+    if dim < 4:
+        groups = [("t", ("E", "e", "energy")), ("tau", ("M", "m", "mass"))]
+        lon = [("z", ("pz",))] if dim == 2 else []
+        values = [("draw", rows[1][0]), ("0.0", 0.0), ("int 0", 0), ("-0.0", -0.0), ("numpy.float64(0)", numpy.float64(0.0)), ("int 3", 3)]
+        targets = [("to_Vector4D", groups + lon), ("to_4D", groups)] + ([("to_Vector3D", lon), ("to_3D", lon)] if dim == 2 else [])
+        for bname, v in vectors.items():
+            if bname == "sympy" or (bname.startswith("awkward:") and not bname.endswith(":0")):
+                continue
+            for meth, grps in targets:
+                for gname, syns in grps:
+                    for vlabel, val in values:
+                        try:
+                            want = vecbits(getattr(v, meth)(**{gname: val}))
+                        except Exception as e:
+                            res.count(f"embedding_with_geometric_keyword_raises:{type(e).__name__}")
+                            continue
+                        for syn in syns:
+                            res.evaluations += 1
+                            try:
+                                got = vecbits(getattr(v, meth)(**{syn: val}))
+                            except Exception as e:
+                                V(f"embedding-keyword-synonym-raises keyword={syn} value={vlabel}", method=meth, backend=bname,
+                                  exc=f"{type(e).__name__}: {e}"[:200])
+                                continue
+                            if got[0] != want[0] or got[2] != want[2]:
+                                V(f"embedding-keyword-synonym-differs keyword={syn} value={vlabel}", method=meth, backend=bname,
+                                  via_synonym=repr(got)[:200], via_geometric=repr(want)[:200])
+                            res.cell("embedding-keyword:" + syn, meth, bname.split(":")[0], sn, vlabel)
+
     # ---------------------------------------------------------------- Awkward: synonym-named fields == geometric-named fields
     if has_mom_names:
         ref = awk.build(system, rows, False, awk.structures(n)["jagged"], route="zip")
